@@ -140,12 +140,27 @@ def server_alive(obs):
     return "ALIVE"
 
 
+import c16
+# the annotation front end: ParseCommentFragment on garbage / deeply nested lines against the annotation model
+# (theorems C01_ann_line_no_fault / C01_ann_fragment_no_fault are about that model); the leg and its generator are C16's
+_T = [l for l in c16.LEGS if l.name == "c16.total"][0]
+
+
+def ann_alive(obs):
+    return obs[:80] if obs.startswith(("PANIC", "CRASH", "TIMEOUT", "FATAL")) else "ALIVE"
+
+
+# C01's demand on this leg: the parser returns (no panic escapes, no hang) - whatever it returns
+ANN_TOTAL = Leg("c16.total", _T.gen, py_spec=lambda c: "ALIVE", spec_proj=ann_alive, shrink=_T.shrink,
+                nontrivial=_T.nontrivial, describe=_T.describe)
+
 LEGS = [
     Leg("c01.parse", gen_parse, py_spec=lambda c: "ALIVE", spec_proj=alive, shrink=shrink_bytes, canon_impl=strip_locs,
         skip_model=lambda m: m.startswith("SKIP"), nontrivial=lambda c: len(c) > 8,
         describe=lambda c: repr(bytes.fromhex(c.split(" ")[0]))[:200] if c[0] != "-" else ""),
     Leg("c01.server", gen_server, canon_impl=server_alive, per_case_s=2.0, jobs=16,
         nontrivial=lambda c: c.count(" S:") > 5, describe=lambda c: "%d files, %d steps" % (c.count("F:"), c.count(" S:"))),
+    ANN_TOTAL,
 ]
 
 TRUSTED = vlib.TRUSTED_COMMON + [
@@ -155,5 +170,5 @@ TRUSTED = vlib.TRUSTED_COMMON + [
 
 
 def main(tier, seed):
-    return vlib.standard_main("C01", LEGS, tier, seed, trusted=TRUSTED,
+    return vlib.standard_main("C01", LEGS, tier, seed, trusted=TRUSTED, other_models={"c16.": "C16"},
                               assumptions=["handlers outside the modelled cores (hover label rendering, signature help, completion deep paths) have no theorem; they are exercised by leg c01.server only"])
